@@ -160,3 +160,115 @@ def short(fid):
 
 def arm_src(arm):
     return " ".join(arm.get("src", "").split())[:100]
+
+
+# ---- branch edges on call results --------------------------------------------------------
+def _copies_of(fn, local):
+    """locals that are plain copies/moves (or negations: flagged) of `local`: {local: negated}"""
+    fl = FL.flow(fn)
+    out = {local: False}
+    changed = True
+    while changed:
+        changed = False
+        for b, blk in enumerate(fn.blocks):
+            for st in blk[0]:
+                pl, rv = st[1], st[2]
+                if pl[1] or pl[0] in out:
+                    continue
+                if rv[0] == "use":
+                    p = FL.op_place(rv[1])
+                    if p and not p[1] and p[0] in out:
+                        out[pl[0]] = out[p[0]]
+                        changed = True
+                elif rv[0] == "un" and rv[1] == "Not":
+                    p = FL.op_place(rv[2])
+                    if p and not p[1] and p[0] in out:
+                        out[pl[0]] = not out[p[0]]
+                        changed = True
+    return out
+
+
+def bool_edges(fn, local):
+    """(true_edges, false_edges) of switch terminators on a boolean local (or copies / negations)"""
+    cp = _copies_of(fn, local)
+    te, fe = [], []
+    for b, blk in enumerate(fn.blocks):
+        t = blk[1]
+        if t[0] != "sw":
+            continue
+        p = FL.op_place(t[1])
+        if not p or p[1] or p[0] not in cp:
+            continue
+        neg = cp[p[0]]
+        for v, tgt in t[2]:
+            # value 0 = false
+            (fe if (v == 0) != neg else te).append((b, tgt))
+        # otherwise edge: true when only 0 is listed, false when only 1 listed
+        listed = [v for v, _ in t[2]]
+        if listed == [0]:
+            (te if not neg else fe).append((b, t[3]))
+        elif listed == [1]:
+            (fe if not neg else te).append((b, t[3]))
+    return te, fe
+
+
+def discr_edges(fn, local, variant_index):
+    """edges taken when enum local (Option/Result) has the given discriminant value:
+    returns (edges_for_value, edges_for_other_values)"""
+    fl = FL.flow(fn)
+    dl = set()
+    for b, blk in enumerate(fn.blocks):
+        for st in blk[0]:
+            if st[2][0] == "discr" and st[2][1][0] == local and not st[1][1]:
+                dl.add(st[1][0])
+    yes, no = [], []
+    for b, blk in enumerate(fn.blocks):
+        t = blk[1]
+        if t[0] != "sw":
+            continue
+        p = FL.op_place(t[1])
+        if not p or p[1] or p[0] not in dl:
+            continue
+        listed = [v for v, _ in t[2]]
+        for v, tgt in t[2]:
+            (yes if v == variant_index else no).append((b, tgt))
+        if variant_index not in listed:
+            yes.append((b, t[3]))
+        else:
+            no.append((b, t[3]))
+    return yes, no
+
+
+def path_count_range(fn, pred_block, start=0, stop_blocks=None):
+    """min and max number of blocks satisfying pred_block on any acyclic normal path start->return;
+    back edges are ignored (loops counted once). Returns (min, max)."""
+    g = CF.cfg(fn)
+    back = set(g.back_edges())
+    memo = {}
+    import sys
+    sys.setrecursionlimit(100000)
+
+    def go(b):
+        if b in memo:
+            return memo[b]
+        memo[b] = None  # cycle guard
+        w = 1 if pred_block(b) else 0
+        t = fn.term(b)
+        if t[0] == "ret" or (stop_blocks and b in stop_blocks):
+            memo[b] = (w, w)
+            return memo[b]
+        lo, hi = None, None
+        for s in g.succ[b]:
+            if (b, s) in back:
+                continue
+            r = go(s)
+            if r is None:
+                continue
+            lo = r[0] if lo is None else min(lo, r[0])
+            hi = r[1] if hi is None else max(hi, r[1])
+        if lo is None:
+            memo[b] = None   # no path to return (diverges: panic/unreachable)
+            return None
+        memo[b] = (lo + w, hi + w)
+        return memo[b]
+    return go(start)
